@@ -1,3 +1,41 @@
 """Class predicates of the known findings listed in /verif/known_findings.json.
 Each takes (shrunk case, failing tag, event line or None) and says whether the failure belongs to the class."""
-KNOWN_CLASSES = {}
+from fractions import Fraction
+import gen
+
+STATE_TAGS = {"geo", "delaunay", "wf", "hull_iter", "cdtlocal", "dt_when_free", "bulk_equiv", "bulk_edges"}
+
+def _bulk_points(op):
+    t = op.split()
+    if t[0] not in ("bulk", "bulks", "bulkc", "bulkcs"):
+        return None
+    n = int(t[1])
+    pts = []
+    for k in range(n):
+        x, y = gen.from_bits(int(t[2 + 3 * k])), gen.from_bits(int(t[3 + 3 * k]))
+        if x != x or y != y or abs(x) == float("inf") or abs(y) == float("inf"):
+            return None
+        pts.append((Fraction(x), Fraction(y)))
+    return pts
+
+def thin_large(pts):
+    """nearly collinear at large magnitude: relative width of the point set below 1e-6 and a coordinate above 2^20"""
+    if len(pts) < 4 or max(max(abs(x), abs(y)) for x, y in pts) < 2 ** 20:
+        return False
+    a = min(pts); c = max(pts)
+    l2 = (c[0] - a[0]) ** 2 + (c[1] - a[1]) ** 2
+    if l2 == 0:
+        return False
+    w = max(abs((c[0] - a[0]) * (p[1] - a[1]) - (c[1] - a[1]) * (p[0] - a[0])) for p in pts)
+    return w * w < l2 * l2 * Fraction(1, 10 ** 12) and w > 0
+
+def bulk_thin_large(case, tag, event):
+    if tag not in STATE_TAGS:
+        return False
+    for op in case.ops:
+        pts = _bulk_points(op)
+        if pts and thin_large(pts):
+            return True
+    return False
+
+KNOWN_CLASSES = {"bulk_thin_large": bulk_thin_large}
